@@ -255,6 +255,15 @@ def event_scenarios(tier):
         out.append((f"rt_ev2_{a1}_{t1}_{a2}_{t2}",
                     dict(rt_factor=1, until=until, sims=sims, conns=conns,
                          events=[("A", a1, t1), ("A", a2, t2)]), [0]))
+    # an earlier event shifts the phase of the simulator's wall-clock polling away from the tick
+    # boundaries; a second event for the running tick then arrives between a tick boundary and
+    # the next poll
+    for a1 in (0.25, 0.5, 0.75):
+        for t1 in ("now", "now+1"):
+            for a2 in (1.1, 2.1, 2.35, 2.6):
+                out.append((f"rt_ev2p_{a1}_{t1}_{a2}",
+                            dict(rt_factor=1, until=until, sims=sims, conns=conns,
+                                 events=[("A", a1, t1), ("A", a2, "now")]), [0]))
     # with a self-stepping target and latencies
     for at in grid[::2]:
         for tg in targets[:3] + ["now"]:
